@@ -517,3 +517,57 @@ def rule_scope_state_restored(ctx, facts, rule):
               "fields written on open: %s; on release: %s" % (sorted(w_reg), sorted(w_un)),
               "fields %s are written when a scope is opened and not when it is released: after an inner scope ends the enclosing scope "
               "keeps the inner scope's value" % missing, extra="state-restored")
+
+
+LOCAL_ENTRY = [
+    "fastrace::local::local_span::LocalSpan::enter_with_local_parent", "fastrace::local::local_span::LocalSpan::add_event",
+    "fastrace::local::local_span::LocalSpan::add_properties", "fastrace::local::local_span::LocalSpan::add_property",
+    "fastrace::span::Span::enter_with_local_parent", "fastrace::span::Span::set_local_parent",
+    "fastrace::collector::id::SpanContext::current_local_parent", "fastrace::local::local_collector::LocalCollector::start",
+]
+
+
+def rule_local_context_is_the_stack(ctx, facts, rule):
+    """The thread's local context is LOCAL_SPAN_STACK and nothing else: the local operations reach no thread-local / static of
+    the fastrace crate that the confirmed tree does not have. (A second piece of per-thread state -- a counter of open scopes
+    consulted on a fast path -- has to be kept in step with the stack on every path that opens or releases a scope; the stack
+    itself needs no such care.)"""
+    import json, os
+    kp = os.path.join(os.path.dirname(os.path.abspath(__file__)), "known_fns.json")
+    with open(kp) as fh:
+        allk = json.load(fh)
+    known = set(((allk.get("__statics__") or {}).get("fastrace") or {}))
+    known_tls_types = set(((allk.get("__tls__") or {}).get("fastrace") or {}).values())
+    new_tls = {}
+    for k, c in facts.consts.items():
+        m = re.match(r"std::thread::local::LocalKey<(.*)>$", c.get("ty", "")) if k.startswith("fastrace::") else None
+        if m and m.group(1) not in known_tls_types and k not in ((allk.get("__tls__") or {}).get("fastrace") or {}):
+            new_tls[m.group(1)] = k
+    roots = [p for p in LOCAL_ENTRY if p in facts.fns]
+    ctx.floor(rule, "fastrace::local", len(roots), 6, "local entry points")
+    par = facts.reachable(roots)
+    bad = []
+    for p in sorted(par):
+        g = facts.fns.get(p)
+        if g is None or g.crate != "fastrace":
+            continue
+        for blk in g.blocks:
+            for st in blk["stmts"]:
+                if st["k"] != "assign":
+                    continue
+                rv = st["rv"]
+                names = [rv.get("static")] if rv["k"] == "tls" else []
+                for o in ([rv.get("op")] if isinstance(rv.get("op"), dict) else []) + list(rv.get("ops", [])):
+                    if isinstance(o, dict) and o.get("static"):
+                        names.append(o["static"])
+                for o in ([rv.get("op")] if isinstance(rv.get("op"), dict) else []) + list(rv.get("ops", [])):
+                    m = re.match(r"&std::thread::local::LocalKey<(.*)>$", str(o.get("ty", ""))) if isinstance(o, dict) and o.get("k") == "const" else None
+                    if m and m.group(1) in new_tls:
+                        bad.append((g.path, st.get("span", ""), new_tls[m.group(1)]))
+                for nme in names:
+                    if nme and nme.startswith("fastrace::") and nme not in known and not re.search(r"::promoted\[|__init|::VAL$|::\{\{?constant|::__KEY|::STATE$", nme):
+                        bad.append((g.path, st.get("span", ""), nme))
+    ctx.check(not bad, rule, "fastrace::local", "-",
+              "the local operations consult no per-thread / global state besides the scope stack (and the statics of the confirmed tree)",
+              "%d bodies reachable from %d entry points" % (len([p for p in par if p in facts.fns]), len(roots)),
+              "new state reached from the local operations: %s" % sorted(set(bad))[:4], extra="only-the-stack")
